@@ -485,24 +485,40 @@ PROPS["C16"] = Prop(
 # instances exceed 14 GB; Rust-level panics (index, slice, unwrap, overflow) are still checked, and
 # paseto-core's only unsafe block (base64.rs) is covered in full mode by the base64 harnesses
 _api = [H("core_units", "api::" + n, t, timeout=to, mem=14, mode="nomem", doc=d) for n, t, to, d in [
-    ("keytext_local_t0", "qt", 600, "KeyText<Local>: every 9-byte string; accepted iff == 'k4.local.'"),
+    # every byte symbolic, header included (decision only: accepted <=> == header + canonical tail)
+    ("keytext_local_t0", "qt", 900, "KeyText<Local>: every 9-byte string; accepted iff == 'k4.local.'"),
+    ("keytext_local_short", "t", 600, "KeyText<Local>: 7-byte strings (shorter than the header) are rejected"),
+    ("keytext_local_hdr_t2", "t", 1500, "KeyText<Local>: every 11-byte string; accepted iff 'k4.local.' + 2 canonical chars"),
+    ("keytext_secret_hdr_t0", "t", 900, "KeyText<Secret>: every 10-byte string; accepted iff == 'k4.secret.'"),
+    ("keytext_public_hdr_t0", "t", 900, "KeyText<Public>: every 10-byte string; accepted iff == 'k4.public.'"),
+    ("keytext_v3_local_hdr_t0", "t", 900, "KeyText (default PASERK header k3): every 9-byte string"),
+    ("pie_local_hdr_t0", "t", 1500, "PieWrappedKey<Local>: every 18-byte string; accepted iff == 'k4.local-wrap.pie.'"),
+    ("pie_secret_hdr_t0", "t", 1500, "PieWrappedKey<Secret>: every 19-byte string"),
+    ("pw_local_hdr_t0", "t", 1200, "PasswordWrappedKey<Local>: every 12-byte string"),
+    ("pw_secret_hdr_t0", "t", 1200, "PasswordWrappedKey<Secret>: every 13-byte string"),
+    ("seal_hdr_t0", "qt", 900, "SealedKey: every 8-byte string; accepted iff == 'k4.seal.'"),
+    ("seal_hdr_t2", "t", 1200, "SealedKey: every 10-byte string"),
+    ("token_hdr_p0_nodot", "qt", 900, "SealedToken: every 9-byte string without '.' after byte 9; accepted iff == 'v4.local.'"),
+    ("token_hdr_p2_nodot", "t", 1500, "SealedToken: every 11-byte string, no dot in the tail"),
+    ("token_hdr_p0_dot_f0", "t", 1200, "SealedToken: every 10-byte string whose 10th byte is '.'"),
+    # the parser's own header (concrete) followed by a fully symbolic tail: strict canonical base64url + Display round trip
     ("keytext_local_t1", "t", 600, "KeyText<Local>: header + 1 char (never valid)"),
     ("keytext_local_t2", "qt", 900, "KeyText<Local>: header + 2 chars: strict canonical base64url and Display round trip"),
     ("keytext_local_t3", "qt", 900, "KeyText<Local>: header + 3 chars"),
     ("keytext_local_t4", "t", 900, "KeyText<Local>: header + 4 chars"),
     ("keytext_local_t6", "t", 1200, "KeyText<Local>: header + 6 chars"),
-    ("keytext_local_short", "t", 600, "KeyText<Local>: 7-byte strings (shorter than the header) are rejected"),
+    ("keytext_local_t7", "t", 1500, "KeyText<Local>: header + 7 chars"),
     ("keytext_secret_t3", "t", 900, "KeyText<Secret>"), ("keytext_public_t2", "t", 900, "KeyText<Public>"),
     ("keytext_v3_local_t3", "t", 900, "KeyText with the default PASERK header k3"),
     ("pie_local_t3", "qt", 900, "PieWrappedKey<Local> FromStr/Display"), ("pie_secret_t4", "t", 900, "PieWrappedKey<Secret>"),
     ("pw_local_t3", "qt", 900, "PasswordWrappedKey<Local>"), ("pw_secret_t2", "t", 900, "PasswordWrappedKey<Secret>"),
     ("seal_t3", "qt", 900, "SealedKey"), ("seal_t4", "t", 900, "SealedKey"),
-    ("keyid_lid_44", "t", 1800, "KeyId<Local>: every 51-byte string; accepted iff header + 44 canonical chars; Display round trip"),
+    ("keyid_lid_44", "t", 1800, "KeyId<Local>: header + every 44-byte tail; accepted iff canonical; Display round trip"),
     ("keyid_lid_43", "t", 1800, "KeyId: 43 characters (32 bytes) rejected"), ("keyid_lid_46", "t", 1800, "KeyId: 46 characters (34 bytes) rejected"),
     ("keyid_sid_44", "t", 1800, "KeyId<Secret>"), ("keyid_pid_44", "t", 1800, "KeyId<Public>"),
-    ("key_fromstr_is_keytext_then_decode", "qt", 900, "Key::from_str = KeyText::from_str then V::decode on exactly the decoded bytes"),
+    ("key_fromstr_is_keytext_then_decode", "qt", 900, "Key::from_str = KeyText::from_str then V::decode on exactly the decoded bytes (header fixed, 4-char symbolic tail)"),
     ("keyid_roundtrip_eq_ord_hash", "t", 1800, "KeyId: FromStr(Display(id)) == id; Eq/Ord/Hash agree with the 33 bytes"),
-    ("token_p4_nodot", "qt", 900, "SealedToken: every 13-byte string without '.', accepted iff header + canonical base64url; Display round trip"),
+    ("token_p4_nodot", "qt", 900, "SealedToken: 'v4.local.' + every 4-byte tail without '.', accepted iff canonical base64url; Display round trip"),
     ("token_p3_nodot", "t", 900, "SealedToken, 3-char payload"), ("token_p0_nodot", "t", 600, "SealedToken, empty payload"),
     ("token_p4_dot_f0", "qt", 900, "SealedToken with trailing '.': Display drops it"),
     ("token_p4_dot_f2", "t", 900, "SealedToken payload.footer; a second '.' in the footer segment is rejected"),
@@ -512,8 +528,8 @@ _api = [H("core_units", "api::" + n, t, timeout=to, mem=14, mode="nomem", doc=d)
 PROPS["C09"].harnesses += _api
 PROPS["C09"].functions += ["paseto_core::paserk::{KeyText, KeyId, PieWrappedKey, PasswordWrappedKey, SealedKey}::{from_str, fmt}", "paseto_core::key::Key::from_str",
                            "paseto_core::encodings::{FromStr, Display for SealedToken}"]
-PROPS["C09"].bounds["quick"] += "; API level: fully symbolic strings of header length + 0..4 characters per parser"
-PROPS["C09"].bounds["thorough"] += "; API level: header + 0..6 characters, key ids of 43/44/46 characters, token strings up to 16 bytes with every dot position"
+PROPS["C09"].bounds["quick"] += "; API level: fully symbolic strings of exactly header length (KeyText, SealedKey, SealedToken), and concrete header + fully symbolic tails of 2..4 characters per parser"
+PROPS["C09"].bounds["thorough"] += "; API level: fully symbolic strings of header length (+2) for every parser; concrete header + symbolic tails of 1..7 characters, key ids of 43/44/46 characters, token strings up to 16 bytes with every dot position"
 PROPS["C09"].models = ["core::slice::memchr::memchr (used by str::split_once('.') in the token parser) is stubbed by a position-announcing version that ASSERTS the announced position is the first '.', so segment lengths stay concrete; a wrong announcement fails the harness",
                        "arbitrary backend AV for V::decode / Payload / Footer (L3)"]
 
@@ -583,7 +599,8 @@ for _h in PROPS["C04"].harnesses + PROPS["C09"].harnesses:
         n = _h.name
         keep = ("l0_" in n or any(n.endswith(x) for x in ("strict_n0", "strict_n2", "strict_n3", "strict_n4", "strict_n5", "strict_n6", "small_dst", "roundtrip_empty",
                 "roundtrip_n1", "roundtrip_n2", "roundtrip_n3", "roundtrip_n4", "agrees_n2", "agrees_n3", "keytext_local_t0", "keytext_local_t2", "keytext_local_t3",
-                "pie_local_t3", "pw_local_t3", "seal_t3", "token_p4_nodot", "token_p4_dot_f0", "key_fromstr_is_keytext_then_decode", "l3_unseal_exact_p3_f0_a0")))
+                "pie_local_t3", "pw_local_t3", "seal_t3", "token_p4_nodot", "token_p4_dot_f0", "key_fromstr_is_keytext_then_decode", "l3_unseal_exact_p3_f0_a0",
+                "seal_hdr_t0", "token_hdr_p0_nodot")))
         if not keep:
             _h.tiers = "t"
 
@@ -643,10 +660,10 @@ PROPS["C13"] = Prop(
 PROPS["C10"] = Prop(
     "C10", [H("core_units", "api::c10_header_table", "qt", timeout=600, mode="full", doc="the eleven kind headers read from paseto-core's KeyType/SealingKey constants all start and end with '.', and none is a prefix of another (PKE kinds deliberately share .public./.secret.)"),
             H("core_units", "api::c10_no_string_accepted_twice", "t", timeout=3000, mem=20, mode="nomem", doc="one symbolic 12-byte string offered to six PASERK parsers (k4 and k3; local, secret, public, seal): at most one accepts")]
-    + [h for h in PROPS["C09"].harnesses if h.name.startswith("api::") and any(x in h.name for x in ("keytext_local_t3", "keytext_secret_t3", "keytext_public_t2", "keytext_v3_local_t3", "pie_local_t3", "pw_local_t3", "seal_t3", "token_p4_nodot", "keyid_lid_44"))]
+    + [h for h in PROPS["C09"].harnesses if h.name.startswith("api::") and any(x in h.name for x in ("_hdr_", "keytext_local_t0", "keytext_local_short"))]
     + [h for h in _collect("C08") if "local_key_codec" in h.name or "wrong_len" in h.name]
     + [h for h in _collect("C06") if "relabel" in h.name],
-    explanation="(i) every parser accepts only strings that start with exactly its own version and kind header followed by canonical base64url (the C09 API harnesses on fully symbolic strings); (ii) the header constants are pairwise distinct and prefix-free, and a symbolic string is accepted by at most one of eight parsers; (iii) key bytes of another kind's length are rejected (C08 length harnesses); (iv) an authenticated blob whose kind header is relabelled local<->secret fails to unwrap (C06 relabel classes).",
+    explanation="(i) every parser accepts only strings that start with exactly its own version and kind header followed by canonical base64url (the C09 API harnesses on fully symbolic strings); (ii) the header constants are pairwise distinct and prefix-free, and a symbolic 12-byte string is accepted by at most one of six parsers; (iii) key bytes of another kind's length are rejected (C08 length harnesses); (iv) an authenticated blob whose kind header is relabelled local<->secret fails to unwrap (C06 relabel classes).",
     functions=["paseto_core::key::{KeyType, SealingKey} constants", "every FromStr of paseto-core", "<backend>::HasKey::decode", "<backend>::{pie_unwrap_key, pw_unwrap_key}"],
     bounds={"quick": "header table; 16-byte cross-parser string; header+3 character strings per parser; v4 relabel classes", "thorough": "all backends' length and relabel harnesses"},
     outside=["relabel to another version's header (the version prefix is a constant of the same MAC transcript)", "token purposes: local and public token payloads go to different key types, which the type system separates"],
@@ -655,11 +672,19 @@ PROPS["C10"] = Prop(
 PROPS["C14"] = Prop(
     "C14", [H("json_units", "wire::" + n, t, timeout=1500, mem=12, doc=d) for n, t, d in [
         ("serialize_emits_exactly_present_claims", "qt", "presence of each of the 7 claims symbolic: exactly the present claims are emitted, in order iss sub aud exp nbf iat jti, under their names, each with its own value (identity by address)"),
-        ("deserialize_map_n0", "qt", "empty map"), ("deserialize_map_n1", "qt", "one member: any of the 7 names or unknown; null or a 1-character string"),
-        ("deserialize_map_n2", "qt", "two members in any order incl. duplicates: unknown ignored; null then value accepted; value then duplicate rejected"),
-        ("deserialize_map_n3", "t", "three members")]],
-    explanation="PARTIAL CLAIM at the serde data-model level: the hand-written Serialize emits exactly the present claims under the registered names with their own values; the Deserialize visitor, fed symbolic sequences of up to 3 map members by a harness-defined MapAccess, ignores unknown members and order, rejects a duplicate of an already-set claim, accepts null-then-value, and otherwise assigns each claim the last value. The JSON text level (escapes, RFC 3339 / nanosecond formatting and parsing) is serde_json's and jiff's code and is not claimed; timestamp-valued members are offered only as null on the deserialize side.",
+        ("deserialize_map_n0", "qt", "empty map"),
+        ("deserialize_map_iss", "qt", "one member \"iss\": null or a symbolic 1-character string"),
+        ("deserialize_map_sub", "t", "one member sub"), ("deserialize_map_aud", "t", "one member aud"), ("deserialize_map_jti", "t", "one member jti"),
+        ("deserialize_map_exp_null", "qt", "one member exp: null"), ("deserialize_map_nbf_null", "t", "nbf: null"), ("deserialize_map_iat_null", "t", "iat: null"),
+        ("deserialize_map_unknown", "qt", "one member with an unregistered name is ignored"),
+        ("deserialize_map_iss_iss", "qt", "duplicate iss: null then value accepted, value then anything rejected"),
+        ("deserialize_map_jti_jti", "t", "duplicate jti"), ("deserialize_map_aud_aud", "t", "duplicate aud"),
+        ("deserialize_map_iss_sub", "qt", "two distinct names: each value lands in its own claim"), ("deserialize_map_sub_iss", "t", "the other order"),
+        ("deserialize_map_unknown_iss", "t", "unknown then iss"), ("deserialize_map_iss_unknown", "t", "iss then unknown"),
+        ("deserialize_map_exp_exp_null", "t", "exp: null twice"),
+        ("deserialize_map_iss_unknown_iss", "t", "three members: iss, unknown, iss"), ("deserialize_map_sub_aud_jti", "t", "three distinct members")]],
+    explanation="PARTIAL CLAIM at the serde data-model level: the hand-written Serialize emits exactly the present claims under the registered names with their own values; the Deserialize visitor, fed maps of up to 3 members (member names concrete per harness, null-ness and value symbolic) by a harness-defined MapAccess, ignores unknown members and order, rejects a duplicate of an already-set claim, accepts null-then-value, and otherwise assigns each claim the last value. The JSON text level (escapes, RFC 3339 / nanosecond formatting and parsing) is serde_json's and jiff's code and is not claimed; timestamp-valued members are offered only as null on the deserialize side.",
     functions=["paseto_json::RegisteredClaims::{serialize, deserialize}, RegisteredClaimsVisitor::visit_map, RegisteredClaimFieldVisitor"],
-    bounds={"quick": "7 presence bits; maps of 0..2 members", "thorough": "maps of 3 members"},
+    bounds={"quick": "7 presence bits; maps of 0..2 members over 6 name combinations", "thorough": "19 name combinations, up to 3 members"},
     outside=["JSON text (serde_json), RFC 3339 text (jiff), Json<T> wrappers (two-line delegations to serde_json)", "string values longer than 1 character"],
     models=["harness-defined serde Serializer / Deserializer / MapAccess (the serde data model)"], assumptions=["serde's data-model contract between Serialize/Deserialize impls and formats"])
